@@ -27,7 +27,7 @@ BUDGET_S = {'quick': 110, 'thorough': 540}
 NUMBA_THREADS = 2
 SUBJECTS = ['cpa', 'cpa_alt', 'dpa', 'anova', 'nicv', 'snr', 'mia', 'tbuild', 'tstatic', 'tdpa']
 KINDS = ['traces_list', 'data_list', 'data_none', 'rows_mismatch', 'traces_1d', 'trace_len', 'word_count', 'data_float', 'dpa_nonbinary',
-         'auto_big', 'auto_negative', 'memory_refused', 'data_int64']
+         'auto_big', 'auto_negative', 'memory_refused', 'data_int64', 'traces_float16']
 REQUIRED_COUNTERS = ['auto_partition_first_call_rejections', 'rejections_observed', 'rejections_first_call', 'rejections_later_call', 'state_after_rejection_compared',
                      'later_results_compared', 'analysis_process_rejections', 'analysis_run_interruptions', 'template_run_before_build']
 RULE = ('a case = (distinguisher in 10 classes | analysis class, rejection kind in 12 + 5 analysis-level kinds, number k <= 4 of accepted batches, '
@@ -56,6 +56,8 @@ def applicable(name, kind, p):
         return name not in ('cpa', 'cpa_alt', 'tstatic')
     if kind == 'data_int64':
         return name in subjects.PARTITIONED
+    if kind == 'traces_float16':
+        return name in subjects.PARTITIONED          # valid shapes and data, a trace dtype the compiled kernels have no signature for
     if kind == 'dpa_nonbinary':
         return name == 'dpa' and p == 0
     if kind in ('auto_big', 'auto_negative'):
@@ -141,6 +143,8 @@ def _bad_call(kind, tr, d, rng, name):
         return tr, d.astype('float64')
     if kind == 'data_int64':
         return tr, d.astype('int64')
+    if kind == 'traces_float16':
+        return (tr.astype('float16') if rng.random() < 0.5 else tr.astype('>f4')), d
     if kind == 'dpa_nonbinary':
         dd = d.copy()
         dd.reshape(-1)[0] = 2
